@@ -51,7 +51,7 @@ CADENCE = {
     "rl_blox.algorithm.td3_lap.train_td3_lap": ("soft", [r"Eq\(0, mod\(C, policy_delay\)\)"], WARM, 2),
     "rl_blox.algorithm.sac.train_sac": ("soft", [r"Eq\(0, mod\(C, target_network_delay\)\)"], WARM, 1),
     "rl_blox.algorithm.td7._train_step": ("hard", [r"Eq\(0, mod\(C, target_delay\)\)"], [], 4),
-    "rl_blox.algorithm.td7.train_td7": ("hard", [r"update_checkpoint"], WARM + [r"use_checkpoints", r"or\(\w+, \w+\)", r"and\(.*use_checkpoints.*\)"], 1),
+    "rl_blox.algorithm.td7.train_td7": ("hard", [r"assess_performance_and_checkpoint\(\)\[0\]"], WARM + [r"use_checkpoints", r"or\(\w+, \w+\)", r"and\(.*use_checkpoints.*\)"], 1),
     "rl_blox.algorithm.mrq.train_mrq": ("hard", [r"Eq\(0, mod\(C, target_delay\)\)"], WARM, 2),
 }
 
@@ -114,6 +114,14 @@ def _lit_canon(nf, sc, cfg, txt, truth, at):
         e = ast.parse(txt, mode="eval").body
     except SyntaxError:
         return f"{'' if truth else '!'}{txt}"
+    if isinstance(e, ast.Name):
+        # a flag unpacked from the result of a repo function is named by its origin (callee, position), not by the local name
+        ds = cfg.defs_of(at, e.id)
+        if len(ds) == 1 and ds[0].kind == "unpack" and isinstance(ds[0].value, ast.Call) and isinstance(ds[0].value.func, (ast.Name, ast.Attribute)) and ds[0].path:
+            fq = nf.repo.resolve_expr(sc.mi, ds[0].value.func)
+            if fq and fq.startswith(nf.repo.PKG + "."):
+                c = f"{fq.rsplit('.', 1)[1]}()[{','.join(str(i) for i in ds[0].path)}]"
+                return c if truth else f"not({c})"
     # truthiness of `x % y`
     if isinstance(e, ast.BinOp) and isinstance(e.op, ast.Mod):
         p = nf.poly(e, sc, at).canon()
